@@ -3,7 +3,7 @@
     observations.  PARTIAL: see the comment at the end for the clauses not linked. *)
 From Coq Require Import List ZArith NArith Bool Lia.
 From DH Require Import Lib.CheckLib Model.Store Model.FeedSpec Model.Compact Proofs.StoreProofs
-     Proofs.CompactProofs Check.C12Check.
+     Proofs.C01Proofs Proofs.CompactProofs Check.C12Check Proofs.CompactReaders.
 Import ListNotations.
 Open Scope Z_scope.
 
@@ -123,9 +123,168 @@ Proof.
   - rewrite Forall_forall in *. intros x Hx. apply Hseq. apply (ir_sub _ _ Hr). exact Hx.
 Qed.
 
-(** NOT linked by a theorem (checked only by evaluation on the generated cases): the listing / lookup / latest-only
-    clauses of [spec_op_ok] (they follow from C12_invisible's pointer and last-version clauses once
-    [listing_page], [entity_at] and the latest-only reader are related to [stored_latest] / [last_entry]
-    in states with sequence gaps - StoreReaders proves this only for contiguous sequence numbers), the crash
-    clause at observation level, the relationship queries (not modelled), and the consistency clause for a
-    racing writer. *)
+(** ** the whole executable spec of an un-raced compaction (complete or killed after any number of flushes) *)
+
+(** the repaired strategy never schedules reference keys shared with a kept version *)
+Lemma pass_noshared eqb : forall vs prev, Forall (fun i => i_shared i = false) (entity_pass cf_fixed eqb prev vs).
+Proof.
+  induction vs as [|v vs IH]; intros prev; cbn [entity_pass]; [constructor|].
+  destruct (eqb (en_c prev) (en_c v)); [constructor; [reflexivity | apply IH]|].
+  destruct (0 <? _); [constructor; [reflexivity | apply IH] | apply IH].
+Qed.
+
+Lemma all_noshared eqb d order : Forall (fun i => i_shared i = false) (all_instrs cf_fixed eqb d order).
+Proof.
+  apply Forall_forall. intros i Hi. unfold all_instrs in Hi. apply in_flat_map in Hi. destruct Hi as (id & _ & Hi).
+  unfold entity_instrs in Hi. destruct (versions_of d id) as [|v vs]; [destruct Hi|].
+  pose proof (pass_noshared eqb vs v) as H. rewrite Forall_forall in H. now apply H.
+Qed.
+
+Lemma plan_prefix_noshared fl thr d order k :
+  existsb i_shared (concat (firstn k (plan cf_fixed fl thr d order))) = false.
+Proof.
+  apply not_true_is_false. intros H. apply existsb_exists in H. destruct H as (i & Hi & Hs).
+  assert (Hin : In i (all_instrs cf_fixed (compact_eqb fl) d order)).
+  { unfold plan in Hi.
+    pose proof (concat_batches (eff_threshold thr) (all_instrs cf_fixed (compact_eqb fl) d order) [] 0) as Hc.
+    cbn [app] in Hc. rewrite <- Hc.
+    rewrite <- (firstn_skipn k (batches _ _ _ _)), concat_app. apply in_or_app. now left. }
+  pose proof (all_noshared (compact_eqb fl) d order) as Hall. rewrite Forall_forall in Hall.
+  rewrite (Hall i Hin) in Hs. discriminate.
+Qed.
+
+Definition crashing_of (n crash : Z) : bool := (0 <? crash) && (crash <=? n).
+
+Lemma compact_store_norace v st ds thr crash order :
+  let d := get_ds st ds in
+  let p := plan (v_cf v) (v_fl v) thr d order in
+  let crashing := crashing_of (Z.of_nat (length p)) crash in
+  let upto := if crashing then Z.to_nat (crash - 1) else length p in
+  compact_store v st ds thr crash None order
+  = {| cr_store := set_ds st ds (compact_crash (v_cf v) (v_fl v) thr order upto d);
+       cr_flushes := if crashing then crash else Z.of_nat (length p);
+       cr_crashed := crashing; cr_raced := false; cr_racenew := 0;
+       cr_shared := existsb i_shared (concat (firstn upto p)) |}.
+Proof. reflexivity. Qed.
+
+Definition gkey (g : gobs) : Z * option Z := (g_id g, g_at g).
+
+Lemma partials_trans (a b c : list (Z * content)) :
+  list_eqb partial_eqb a b = true -> list_eqb partial_eqb b c = true -> list_eqb partial_eqb a c = true.
+Proof. exact (oents_eqb_trans a b c). Qed.
+Lemma partials_sym (a b : list (Z * content)) : list_eqb partial_eqb a b = list_eqb partial_eqb b a.
+Proof. exact (oents_eqb_sym a b). Qed.
+
+Lemma partials_nil_iff (a b : list (Z * content)) : list_eqb partial_eqb a b = true ->
+  forall (A : Type) (x y : A), match a with [] => x | _ => y end = match b with [] => x | _ => y end.
+Proof. destruct a, b; cbn; intros H; try discriminate; reflexivity. Qed.
+
+Lemma get_same_of_agree st ds d' ga gb :
+  keys_sorted st -> cinv (get_ds st ds) -> inv_rel (get_ds st ds) d' ->
+  gkey ga = gkey gb ->
+  get_agrees (set_ds st ds d') ds ga = true -> get_agrees st ds gb = true ->
+  get_same ga gb = true.
+Proof.
+  intros Hk Hd Hr Hkey Ha Hb. unfold gkey in Hkey. injection Hkey as Hid Hat.
+  unfold get_agrees in Ha, Hb. rewrite Hid, Hat in Ha.
+  change (s_clock (set_ds st ds d')) with (s_clock st) in Ha.
+  set (at' := match g_at gb with Some t => t | None => s_clock st end) in *.
+  destruct (lookup_same st ds d' (g_id gb) at' Hk Hd Hr) as [Hp Hh].
+  destruct (entity_at (set_ds st ds d') (g_id gb) at' [ds]) as [p' h'].
+  destruct (entity_at st (g_id gb) at' [ds]) as [p h]. cbn [fst snd] in Hp, Hh. subst h'.
+  apply andb_true_iff in Ha. destruct Ha as [Ha _]. apply andb_true_iff in Ha. destruct Ha as [Ha1 Ha2].
+  apply andb_true_iff in Hb. destruct Hb as [Hb _]. apply andb_true_iff in Hb. destruct Hb as [Hb1 Hb2].
+  unfold get_same. rewrite Hid, Z.eqb_refl. cbn [andb].
+  apply andb_true_iff. split.
+  - rewrite partials_sym in Ha1. eapply partials_trans; [exact Ha1|]. eapply partials_trans; [exact Hp | exact Hb1].
+  - apply eqb_prop in Ha2, Hb2. rewrite Ha2, Hb2, (partials_nil_iff p' p Hp). apply eqb_reflx.
+Qed.
+
+Lemma gets_same_of_agree st ds d' : keys_sorted st -> cinv (get_ds st ds) -> inv_rel (get_ds st ds) d' ->
+  forall la lb, map gkey la = map gkey lb ->
+  forallb (get_agrees (set_ds st ds d') ds) la = true -> forallb (get_agrees st ds) lb = true ->
+  list_eqb get_same la lb = true.
+Proof.
+  intros Hk Hd Hr. induction la as [|a la IH]; destruct lb as [|b lb]; cbn [map forallb list_eqb]; intros Hm Ha Hb;
+    try discriminate; [reflexivity|].
+  assert (Hab : gkey a = gkey b) by congruence. assert (Hm' : map gkey la = map gkey lb) by congruence.
+  clear Hm. rename Hm' into Hm. apply andb_true_iff in Ha, Hb. destruct Ha as [Ha1 Ha2], Hb as [Hb1 Hb2].
+  rewrite (get_same_of_agree st ds d' a b Hk Hd Hr Hab Ha1 Hb1). cbn [andb]. now apply IH.
+Qed.
+
+Lemma seqs_nonneg_sub d d' : seqs_nonneg d -> inv_rel d d' -> seqs_nonneg d'.
+Proof.
+  unfold seqs_nonneg. rewrite !Forall_forall. intros H Hr x Hx. apply H, (ir_sub _ _ Hr), Hx.
+Qed.
+
+(** C12_agree_implies_spec: in any model state whose dataset satisfies the invariant, if the repaired model predicts
+    the reads taken before and after an un-raced compaction - complete, or killed at any flush - then the WHOLE
+    executable spec holds on those observations: no failing read, same latest-only feed (as a set), same listing,
+    same answers to all lookups (current and point in time), same relations, and the full feed after is the feed
+    before minus the versions identical to their immediate predecessor (killed: both de-duplicate to the same feed). *)
+Theorem agree_compact_spec st ds thr crash order o_fl o_cr o_rn before after :
+  let d := get_ds st ds in
+  cinv d -> seqs_nonneg d -> keys_sorted st -> NoDup order ->
+  (forall id, assoc id (d_latest d) <> None -> In id order) ->
+  map gkey (ro_gets after) = map gkey (ro_gets before) ->
+  snd (fst (agree_op v_fixed false st (CCompact ds thr crash None order o_fl o_cr false o_rn before after))) = true ->
+  spec_op_ok (CCompact ds thr crash None order o_fl o_cr false o_rn before after) = true.
+Proof.
+  intros d Hd Hseq Hks Hnd Hcov Hkeys Hag. subst d.
+  cbn [agree_op snd fst] in Hag. rewrite compact_store_norace in Hag.
+  cbn [cr_store cr_flushes cr_crashed cr_raced cr_racenew cr_shared] in Hag.
+  unfold reads_agree in Hag.
+  set (d := get_ds st ds) in *.
+  change (v_cf v_fixed) with cf_fixed in Hag. set (fl := v_fl v_fixed) in *.
+  set (p := plan cf_fixed fl thr d order) in *.
+  set (crashing := crashing_of (Z.of_nat (length p)) crash) in *.
+  set (upto := if crashing then Z.to_nat (crash - 1) else length p) in *.
+  pose proof (plan_prefix_noshared fl thr d order upto) as Hns. fold p in Hns. rewrite Hns in Hag. clear Hns.
+  set (d' := compact_crash cf_fixed fl thr order upto d) in *.
+  rewrite get_set_same in Hag.
+  assert (Hr : inv_rel d d') by (apply crash_invisible; [reflexivity | exact Hd | exact Hnd]).
+  pose proof (ir_inv _ _ Hr) as Hd'. pose proof (seqs_nonneg_sub _ _ Hseq Hr) as Hseq'.
+  cbn [cf_stale_prev cf_fixed orb] in Hag.
+  repeat (apply andb_true_iff in Hag; destruct Hag as [Hag ?]).
+  repeat match goal with H : _ && _ = true |- _ => apply andb_true_iff in H; destruct H end.
+  rename Hag into Bfull.
+  match goal with H : oents_eqb (m_latest d) (ro_latest before) = true |- _ => rename H into Blat end.
+  match goal with H : oents_eqb (osort (m_listing d)) (osort (ro_listing before)) = true |- _ => rename H into Blist end.
+  match goal with H : forallb (get_agrees st ds) (ro_gets before) = true |- _ => rename H into Bgets end.
+  match goal with H : oents_eqb (m_full d') (ro_full after) = true |- _ => rename H into Afull end.
+  match goal with H : oents_eqb (m_latest d') (ro_latest after) = true |- _ => rename H into Alat end.
+  match goal with H : oents_eqb (osort (m_listing d')) (osort (ro_listing after)) = true |- _ => rename H into Alist end.
+  match goal with H : forallb (get_agrees (set_ds st ds d') ds) (ro_gets after) = true |- _ => rename H into Agets end.
+  match goal with H : negb (ro_bad after) = true |- _ => rename H into Abad end.
+  match goal with H : rels_same before after = true |- _ => rename H into Hrels end.
+  match goal with H : Bool.eqb crashing o_cr = true |- _ => rename H into Hcr end.
+  apply eqb_prop in Hcr.
+  cbn [spec_op_ok]. rewrite Abad. cbn [andb].
+  apply andb_true_iff. split; [apply andb_true_iff; split; [apply andb_true_iff; split; [apply andb_true_iff; split|]|]|].
+  - (* latest-only feed, as a set *)
+    eapply oents_eqb_trans; [apply osort_respects; rewrite oents_eqb_sym; exact Alat|].
+    eapply oents_eqb_trans; [|apply osort_respects; exact Blat].
+    apply (views_same d d'); [now apply m_latest_view | now apply m_latest_view | apply (ir_last _ _ Hr)].
+  - (* listing *)
+    rewrite oents_eqb_sym in Alist. eapply oents_eqb_trans; [exact Alist|].
+    eapply oents_eqb_trans; [|exact Blist].
+    apply (views_same d d'); [now apply m_listing_view | now apply m_listing_view | apply (ir_last _ _ Hr)].
+  - (* lookups *)
+    apply (gets_same_of_agree st ds d' Hks Hd Hr _ _ Hkeys Agets Bgets).
+  - exact Hrels.
+  - (* full feed *)
+    rewrite m_full_feed in Afull by exact Hseq'. rewrite m_full_feed in Bfull by exact Hseq.
+    rewrite <- Hcr. destruct crashing eqn:Ecr.
+    + pose proof (crash_feed fl thr order upto d eq_refl Hd Hnd) as Hf. fold d' in Hf.
+      eapply oents_eqb_trans; [apply spec_compact_respects; rewrite oents_eqb_sym; exact Afull|].
+      rewrite Hf. now apply spec_compact_respects.
+    + assert (Hdd : d' = compact_ds cf_fixed fl thr order d).
+      { unfold d', compact_crash, compact_ds, upto. fold p. now rewrite firstn_all. }
+      destruct (compact_invisible_full fl thr order d eq_refl Hd Hnd Hcov) as (Hfeed & _).
+      rewrite <- Hdd in Hfeed. rewrite Hfeed in Afull. rewrite oents_eqb_sym in Afull.
+      eapply oents_eqb_trans; [exact Afull | now apply spec_compact_respects].
+Qed.
+
+(** NOT linked by a theorem (checked only by evaluation on the generated cases): the consistency clause of
+    [spec_op_ok] for a compaction raced by a writer; the relationship queries are not modelled (the repaired model
+    predicts "unchanged", which [agree] compares directly on the observations). *)
